@@ -17,10 +17,18 @@ var idents = func() parser2.Identifiers[int] {
 }()
 
 func buildParser(t *table) *parser2.Parser[int] {
-	p := parser2.NewParser[int]().
-		Op(append([]string(nil), t.Bin...)...).
-		Unary(append([]string(nil), t.Un...)...).
-		SetKeyWords(append([]string(nil), keywords...)...).
+	p := parser2.NewParser[int]()
+	bin, un := append([]string(nil), t.Bin...), append([]string(nil), t.Un...)
+	switch t.Order {
+	case 1:
+		p.Unary(un...).Op(bin...)
+	case 2:
+		h := (len(bin) + 1) / 2
+		p.Op(bin[:h:h]...).Unary(un...).Op(bin[h:]...)
+	default:
+		p.Op(bin...).Unary(un...)
+	}
+	p.SetKeyWords(append([]string(nil), keywords...)...).
 		SetNumberParser(parser2.NumberParserFunc[int](func(n string) (int, error) { return strconv.Atoi(n) }))
 	if t.Alias != "" {
 		p.TextOperator(map[string]string{aliasWord: t.Alias})
